@@ -518,3 +518,62 @@ func goBodies(fi *FuncInfo) []*bodyRef {
 	})
 	return out
 }
+
+// declInit returns the initialiser of the statement that declares local v inside body
+// (v := e / var v = e), whatever is assigned to it later.
+func declInit(info *types.Info, body ast.Node, v *types.Var) ast.Expr {
+	var out ast.Expr
+	ast.Inspect(body, func(n ast.Node) bool {
+		switch x := n.(type) {
+		case *ast.AssignStmt:
+			if x.Tok == token.DEFINE && len(x.Lhs) == len(x.Rhs) {
+				for i, l := range x.Lhs {
+					if id, ok := l.(*ast.Ident); ok && info.Defs[id] == v {
+						out = x.Rhs[i]
+					}
+				}
+			}
+		case *ast.ValueSpec:
+			for i, nm := range x.Names {
+				if info.Defs[nm] == v && len(x.Values) == len(x.Names) {
+					out = x.Values[i]
+				}
+			}
+		}
+		return true
+	})
+	return out
+}
+
+// ---- functions new to the rules -------------------------------------------------
+
+var knownFuncSet map[string]bool
+
+// isNewFunc: f is a repo function that did not exist when the rules were
+// written (see known_funcs.go). No rule is keyed on it, so it can only be a
+// helper extracted from (or added next to) an audited function; rules treat it
+// as transparent: its effects are attributed to its call sites.
+func isNewFunc(f *types.Func) bool {
+	if f == nil || f.Pkg() == nil || !isRepoPkg(f.Pkg()) || isGeneratedPkg(f.Pkg().Path()) {
+		return false
+	}
+	if knownFuncSet == nil {
+		knownFuncSet = map[string]bool{}
+		for _, n := range knownFuncList {
+			knownFuncSet[n] = true
+		}
+	}
+	return !knownFuncSet[displayName(f)]
+}
+
+// containsNode: target is a descendant of root in the (possibly frame-rewritten) syntax tree.
+func containsNode(root, target ast.Node) bool {
+	found := false
+	ast.Inspect(root, func(n ast.Node) bool {
+		if n == target {
+			found = true
+		}
+		return !found
+	})
+	return found
+}
